@@ -5,6 +5,7 @@ CFG = {
     "theorems": [
         "Leptos.Reactive.C09_effect_double_run_witness",
         "Leptos.Reactive.C09_run_justified_full_false",
+        "Leptos.Reactive.C09_memo_run_justified",
     ],
     "harness_pkg": "hx-c01",
     "harness_bin": "c09",
@@ -20,10 +21,11 @@ CFG = {
         "category": "proof",
         "text": "The full statement (no body ever runs unjustified, for all programs, histories and schedules) is REFUTED by a kernel-checked witness "
                 "(C09_effect_double_run_witness: m1=s, m2=s+m1, effect reads m2 then m1; one write, two runs) that replays on the real Effect — known finding F-C09-1. "
-                "The memo half (C09_memo_run_justified) is being proved with the C01 invariant. The Lean model is tied to reactive_graph by differential "
+                "The memo half is PROVED: C09_memo_run_justified - for every well-formed effect-free program with tracked reads and every history, no memo body "
+                "ever runs without a tracked input having a new version (invariant InvR + upd_ok, shared with C01). The Lean model is tied to reactive_graph by differential "
                 "correspondence of per-op run counts on generated programs; any unjustified run outside the model's class is a violation.",
         "design_ref": "DESIGN.md §7 C09",
-        "note": "hand-written model validated by correspondence; the positive theorem for memos is pending",
-        "technique": "Lean 4 refutation witness (decide +kernel) + executable model + differential correspondence",
+        "note": "hand-written model validated by correspondence; positive theorem for memos proved, for effects refuted (partial theorem for effects pending)",
+        "technique": "Lean 4 proof (memos) + refutation witness (effects) + differential correspondence",
     },
 }
